@@ -48,6 +48,11 @@ let run_hist (noop : bool) (step : world -> wop -> (world * out) res) (nslots : 
          | "m" -> (match apply (WMalloc (ni (arg 1))) with Some ONull -> add "m=null" | Some _ -> add "m=ptr" | None -> abort ())
          | "f" -> if noop then add "f=skip" else
              (match apply (WFree (ni (arg 1))) with Some OIgnored -> add "f=ignored" | Some _ -> add "f=done" | None -> abort ())
+         | "fo" -> if noop then add "fo=skip" else
+             (match apply (WFree (ni (arg 1))) with Some OIgnored -> add "fo=ignored" | Some _ -> add "fo=done" | None -> abort ())
+         | "fv" -> if noop then add "fv=skip" else
+             if not (created (arg 2)) then add "fv=nocell" else
+             (match apply (WFree (ni (arg 1))) with Some OIgnored -> add "fv=ignored" | Some _ -> add "fv=done" | None -> abort ())
          | "l" | "il" -> if noop then add (c ^ "=skip") else
              let op = if c = "l" then WLookup (ni (arg 1), zi (arg 2)) else WILookup (ni (arg 1), zi (arg 2)) in
              let (asked, _) = sym (if c = "l" then SPub else SInt) (arg 1) (arg 2) in
